@@ -514,7 +514,7 @@ META = {
     "explanation": "Ordering and provenance facts over the MIR of prepare, ops::call and all 96 Operation::call bodies: the signature check's "
                    "Continue edge dominates every Prepare result and the custom-route match; with a provider configured a successful access "
                    "check dominates Prepare::S3; typed hook approval and input deserialisation dominate the backend call; credentials are "
-                   "written only from the verified CredentialsExt; denials reach only error returns; who-may-call for dyn S3 / S3Route.",
+                   "written only from the verified CredentialsExt; denials reach only error returns; who-may-call for dyn S3 / S3Route. Also: the provided S3Access::check (what a hook that overrides only typed methods inherits) refuses anonymous requests.",
     "not_decided": ["behaviour of user-supplied S3Auth / S3Access / S3Route implementations"],
     "assumptions": ["rustc nightly MIR construction", "await loops resume at the same program point (the yield back edge is not a new iteration of user code)"],
 }
